@@ -105,11 +105,10 @@ pub fn death_signature(stderr: &str, status: &std::process::ExitStatus, case: &V
     let mut panic_msg = String::new();
     for l in stderr.lines() {
         if let Some(rest) = l.strip_prefix("PANIC at ") {
-            if location.is_empty() {
-                let (loc, msg) = rest.split_once(": ").unwrap_or((rest, ""));
-                location = crate::worker::strip_repo(loc);
-                panic_msg = msg.to_string();
-            }
+            // the last panic printed is the one that killed the process (earlier ones were caught)
+            let (loc, msg) = rest.split_once(": ").unwrap_or((rest, ""));
+            location = crate::worker::strip_repo(loc);
+            panic_msg = msg.to_string();
         }
         if l.contains("has overflowed its stack") {
             kind = "native-stack-overflow".to_string();
